@@ -249,5 +249,27 @@ def evaluate(case):
                         if not abs(float(g2[i, j]) - want) <= 1e-12 * abs(want):
                             fail("atten-entry", "attenuation_length entry (z=%r,f=%r) = %r, scalar evaluation %r (shapes z%s f%s)"
                                  % (z, f, float(g2[i, j]), want, zshape, fshape), z=z, f=f, zshape=zshape, fshape=fshape)
+        # history on one model object: the same depth / frequency arrays are handed in again after the caller has changed them
+        # in place, and a result handed out earlier has been overwritten by the caller -- every answer is for the values at hand
+        if len(zin) >= 4:
+            za = np.array(zin[1:3], dtype=float)
+            zb = np.array(zin[2:4], dtype=float)
+            fa = np.array(FREQS[1:4], dtype=float)
+            for fshape in (3, 0):
+                farg = fa if fshape else float(fa[0])
+                zarg = za.copy()
+                n += 2
+                first = np.asarray(ice.attenuation_length(zarg, farg))
+                try:
+                    first[...] = -1.0
+                except (ValueError, TypeError):
+                    pass
+                zarg[:] = zb
+                second = np.asarray(ice.attenuation_length(zarg, farg), dtype=float).reshape(2, max(fshape, 1))
+                want = np.array([[sc[(float(z), float(f))] for f in (fa if fshape else fa[:1])] for z in zb])
+                if not np.all(np.abs(second - want) <= 1e-12 * np.abs(want)):
+                    fail("atten-history", "attenuation_length(z, f%s) after the depth array was changed in place from %s to %s: %s, scalar "
+                         "evaluation at the new depths %s" % (fshape or "", za.tolist(), zb.tolist(), second.tolist(), want.tolist()),
+                         fshape=fshape)
     return {"n": n, "nontrivial": ["%s|%s" % (name, k) for k in nontriv], "fails": fails,
             "sample": {"model": name, "depths": depths[:6], "freqs": FREQS[:3]}}
